@@ -346,6 +346,82 @@ func stRMHashData(alloc, blobber, client, pub, owner string, counter, ts int64) 
 	return fmt.Sprintf("%v:%v:%v:%v:%v:%v:%v", alloc, blobber, client, pub, owner, counter, ts)
 }
 
+// rmSpec is one read marker exactly as it goes on the wire, plus the generator's bookkeeping around it.
+type rmSpec struct {
+	Alloc, Blobber, Owner string        // ids named by the marker
+	ClientID, Pub         string        // claimed client id and public key
+	Signer                *world.Wallet // whose secret key signs
+	Reader                *world.Wallet // the wallet the marker is about (the victim of a forgery)
+	Sender                *world.Wallet
+	Counter, Ts           int64
+	LastCtr               int64 // last counter the generator saw accepted for (blobber, client id)
+	Price                 uint64
+	Mut                   string
+	Replay                []byte // byte-identical resubmission of an earlier input
+}
+
+// rmRaws remembers every accepted read_redeem input per (allocation, blobber, client id), oldest first (replays of older markers).
+func rmRaws(h *Hist) map[string][][]byte {
+	m, _ := h.Vars["rmRaws"].(map[string][][]byte)
+	if m == nil {
+		m = map[string][][]byte{}
+		h.Vars["rmRaws"] = m
+	}
+	return m
+}
+
+// rmAttacker is a key pair other than the reader's: the redeeming blobber itself, another client, or an unfunded stranger.
+func rmAttacker(h *Hist, r *mon.Rand, reader *world.Wallet, blobberID string) *world.Wallet {
+	var c []*world.Wallet
+	if bp := h.S.St.blobberByID(blobberID); bp != nil {
+		c = append(c, bp.W, bp.W)
+	}
+	c = append(c, h.stClient(r), h.stClient(r), h.S.Extra[r.Intn(len(h.S.Extra))], h.W.Owner)
+	for i := 0; i < 8; i++ {
+		if w := c[r.Intn(len(c))]; w != reader {
+			return w
+		}
+	}
+	return h.W.Owner
+}
+
+// rmBuildCall signs and packs the marker of s; a may be nil (unknown / closed allocation).
+func rmBuildCall(h *Hist, r *mon.Rand, a *stAlloc, s *rmSpec) *Call {
+	st := h.S.St
+	sig := s.Signer.Sign(stHash(stRMHashData(s.Alloc, s.Blobber, s.ClientID, s.Pub, s.Owner, s.Counter, s.Ts)))
+	rm := map[string]interface{}{"client_id": s.ClientID, "client_public_key": s.Pub, "blobber_id": s.Blobber, "allocation_id": s.Alloc, "owner_id": s.Owner,
+		"timestamp": s.Ts, "counter": s.Counter, "signature": sig}
+	c := stCall(h, r, "read_redeem", s.Sender, map[string]interface{}{"read_marker": rm}, 0)
+	if s.Replay != nil {
+		c.Spec.RawInput = s.Replay
+	}
+	c.Mut = s.Mut
+	c.Meta["alloc"], c.Meta["blobber"], c.Meta["reader"] = s.Alloc, s.Blobber, s.Reader.ID
+	c.Meta["marker"] = map[string]interface{}{"counter": s.Counter, "prev_counter": s.LastCtr, "timestamp": s.Ts, "signer": s.Signer.ID, "client": s.ClientID, "alloc": s.Alloc,
+		"blobber": s.Blobber, "read_price": s.Price, "replay": s.Replay != nil}
+	raw := stFreeze(c)
+	mkey := s.Blobber + "|" + s.ClientID
+	clientID, counter, replay, allocID := s.ClientID, s.Counter, s.Replay != nil, s.Alloc
+	c.After = func(h *Hist, o *TxnObs) {
+		if o.Outcome != "success" || a == nil || replay || a.ID != allocID {
+			return
+		}
+		if counter > a.RC[mkey] {
+			a.RC[mkey] = counter
+		}
+		a.RMRaw[mkey] = raw
+		rr := rmRaws(h)
+		if k := allocID + "|" + mkey; len(rr[k]) < 8 {
+			rr[k] = append(rr[k], raw)
+		}
+		if w := h.W.Wallets[clientID]; w != nil {
+			a.Readers[clientID] = w
+			st.ReadPools[clientID] = w // the contract creates an (empty) read pool on first redeem
+		}
+	}
+	return c
+}
+
 func stReadRedeem(h *Hist, r *mon.Rand) *Call {
 	st := h.S.St
 	a, v, id, mut := h.stAllocTarget(r, 0.08)
@@ -415,7 +491,7 @@ func stReadRedeem(h *Hist, r *mon.Rand) *Call {
 	clientID, pub := reader.ID, reader.PubKey
 	var replay []byte
 	if h.stHostile(r, 0.9) {
-		switch r.Intn(13) {
+		switch r.Intn(19) {
 		case 0:
 			mut, signer = "wrong-signer", h.stStranger(r)
 			if signer == reader {
@@ -460,33 +536,42 @@ func stReadRedeem(h *Hist, r *mon.Rand) *Call {
 			mut, ts = "ts-zero", 0
 		case 12:
 			mut, pub = "bad-public-key", "not-a-key"
+		case 13, 14:
+			// another key pair's public key under the reader's client id, signed by that other key (a first marker of the
+			// triple as well as a later one: lastCtr tells which)
+			at := rmAttacker(h, r, reader, blobberID)
+			mut, pub, signer = "foreign-key-foreign-sig", at.PubKey, at
+		case 15:
+			at := rmAttacker(h, r, reader, blobberID)
+			mut, pub = "foreign-key-victim-sig", at.PubKey
+		case 16:
+			if lastCtr > 0 {
+				at := rmAttacker(h, r, reader, blobberID)
+				mut, pub, signer, counter = "foreign-key-same-counter", at.PubKey, at, lastCtr
+			}
+		case 17:
+			if a != nil {
+				if raws := rmRaws(h)[a.ID+"|"+key]; len(raws) > 1 {
+					mut, replay = "replay-older", raws[r.Intn(len(raws)-1)]
+				}
+			}
+		case 18:
+			for _, b := range rmShuffledAllocs(r, st.open()) {
+				if b != a {
+					mut, id = "other-alloc", b.ID // marker of the same reader and blobber naming another allocation (its own counter)
+					break
+				}
+			}
 		}
 	}
-	sig := signer.Sign(stHash(stRMHashData(id, blobberID, clientID, pub, ownerID, counter, ts)))
-	rm := map[string]interface{}{"client_id": clientID, "client_public_key": pub, "blobber_id": blobberID, "allocation_id": id, "owner_id": ownerID,
-		"timestamp": ts, "counter": counter, "signature": sig}
-	c := stCall(h, r, "read_redeem", sender, map[string]interface{}{"read_marker": rm}, 0)
-	if replay != nil {
-		c.Spec.RawInput = replay
-	}
-	c.Mut = mut
-	c.Meta["alloc"], c.Meta["blobber"], c.Meta["reader"] = id, blobberID, reader.ID
-	c.Meta["marker"] = map[string]interface{}{"counter": counter, "prev_counter": lastCtr, "timestamp": ts, "signer": signer.ID, "client": clientID, "alloc": id,
-		"blobber": blobberID, "read_price": price, "replay": replay != nil}
-	raw := stFreeze(c)
-	mkey := blobberID + "|" + clientID
-	c.After = func(h *Hist, o *TxnObs) {
-		if o.Outcome != "success" || a == nil || replay != nil {
-			return
-		}
-		if counter > a.RC[mkey] {
-			a.RC[mkey] = counter
-		}
-		a.RMRaw[mkey] = raw
-		a.Readers[clientID] = reader
-		st.ReadPools[clientID] = reader // the contract creates an (empty) read pool on first redeem
-	}
-	return c
+	return rmBuildCall(h, r, a, &rmSpec{Alloc: id, Blobber: blobberID, Owner: ownerID, ClientID: clientID, Pub: pub, Signer: signer, Reader: reader, Sender: sender,
+		Counter: counter, Ts: ts, LastCtr: lastCtr, Price: price, Mut: mut, Replay: replay})
+}
+
+func rmShuffledAllocs(r *mon.Rand, in []*stAlloc) []*stAlloc {
+	out := append([]*stAlloc{}, in...)
+	r.Shuffle(len(out), func(i, j int) { out[i], out[j] = out[j], out[i] })
+	return out
 }
 
 // ---- challenges ---------------------------------------------------------------------------------------------------------------
@@ -760,4 +845,227 @@ func stMarkerOps() []OpDef {
 			return stBlockRewards(h, r)
 		}},
 	}
+}
+
+// ---- directed scenario (C15): genuine markers interleaved with forgeries on the SAME (blobber, client, allocation) ---------------------------
+
+func init() {
+	RegisterScenario(Scenario{Prop: "C15", Name: "read-marker-forgery-after-genuine", Every: 1, Fn: rmScenarioC15})
+}
+
+// rmScenarioC15: a reader redeems genuine markers on one (blobber, allocation); in between, markers for the same triple arrive that
+// carry another key pair's public key (signed by that key / by the victim), replays of the last and of older inputs, older and equal
+// counters, and markers naming another blobber / another allocation. Every step is an ordinary read_redeem transaction.
+func rmScenarioC15(h *Hist, mons []Monitor) {
+	st := h.S.St
+	r := h.R.Fork("rm-scenario-c15")
+	st.NoHostile = true
+	defer func() { st.NoHostile = false }()
+
+	type target struct {
+		a  *stAlloc
+		v  *stAllocView
+		ba *stBAView
+	}
+	pick := func() *target {
+		var best *target
+		for _, a := range st.open() {
+			v := h.stGetAlloc(a.ID)
+			if v == nil || v.Expiration < int64(h.W.Now)+600 {
+				continue
+			}
+			for _, ba := range v.BlobberAllocs {
+				if bp := st.blobberByID(ba.BlobberID); bp == nil || bp.Dead != "" {
+					continue
+				}
+				if best == nil || ba.Terms.ReadPrice > best.ba.Terms.ReadPrice {
+					best = &target{a, v, ba}
+				}
+			}
+		}
+		return best
+	}
+	t := pick()
+	for i := 0; i < 3 && (t == nil || t.ba.Terms.ReadPrice == 0); i++ {
+		if c := stNewAlloc(h, r); c != nil {
+			h.stInner(c)
+		}
+		t = pick()
+	}
+	if t == nil {
+		return
+	}
+	a, v := t.a, t.v
+	reader := a.Owner
+	if r.Chance(0.5) {
+		reader = h.stClient(r)
+	}
+	// read pool of the reader: enough for every genuine marker below
+	lock := stReadPoolLock(h, r, reader)
+	lock.Spec.Value = Coin(uint64(4e10) + r.U64()%uint64(1e9))
+	h.stInner(lock)
+	h.stNextBlock(r, 10)
+
+	run := h.Runs["C15"]
+	submit := func(blobberID, allocID, mut string, pub string, signer *world.Wallet, counter int64, replay []byte) *TxnObs {
+		bp := st.blobberByID(blobberID)
+		if bp == nil {
+			return nil
+		}
+		tv := v
+		target := a
+		if allocID != a.ID {
+			tv, target = h.stGetAlloc(allocID), nil
+			for _, b := range st.Allocs {
+				if b.ID == allocID {
+					target = b
+				}
+			}
+		}
+		ts := int64(h.W.Now)
+		owner, price := "", uint64(0)
+		if tv != nil {
+			owner = tv.Owner
+			if ts > tv.Expiration {
+				ts = tv.Expiration
+			}
+			if b := tv.ba(blobberID); b != nil {
+				price = b.Terms.ReadPrice
+			}
+		}
+		last := int64(0)
+		if target != nil {
+			last = target.RC[blobberID+"|"+reader.ID]
+		}
+		c := rmBuildCall(h, r, target, &rmSpec{Alloc: allocID, Blobber: blobberID, Owner: owner, ClientID: reader.ID, Pub: pub, Signer: signer, Reader: reader,
+			Sender: bp.W, Counter: counter, Ts: ts, LastCtr: last, Price: price, Mut: mut, Replay: replay})
+		c.Meta["scenario"] = "rm-c15"
+		o := h.stInner(c)
+		if run != nil {
+			run.Count("scenario_read_redeem:"+mut+"|"+o.Outcome, 1)
+		}
+		if r.Chance(0.4) {
+			h.stNextBlock(r, 5)
+		}
+		return o
+	}
+	step := func() int64 { return int64([]int{1, 3, 40, 400, 2000}[r.Intn(5)]) }
+	blobber := t.ba.BlobberID
+	key := blobber + "|" + reader.ID
+	last := func() int64 { return a.RC[key] }
+	genuine := func() { submit(blobber, a.ID, "", reader.PubKey, reader, last()+step(), nil) }
+
+	// a forgery before any genuine marker exists, then the first genuine one
+	at0 := rmAttacker(h, r, reader, blobber)
+	submit(blobber, a.ID, "foreign-key-foreign-sig", at0.PubKey, at0, step(), nil)
+	genuine()
+	if last() == 0 {
+		return // the genuine marker was not accepted (blobber unusable, allocation gone): nothing to build on
+	}
+	var firstRaw []byte
+	if raws := rmRaws(h)[a.ID+"|"+key]; len(raws) > 0 {
+		firstRaw = raws[0]
+	}
+	hostile := []func(){
+		func() { // the redeeming blobber's own key pair under the reader's client id
+			at := st.blobberByID(blobber).W
+			submit(blobber, a.ID, "foreign-key-foreign-sig", at.PubKey, at, last()+step(), nil)
+		},
+		func() {
+			at := rmAttacker(h, r, reader, blobber)
+			submit(blobber, a.ID, "foreign-key-foreign-sig", at.PubKey, at, last()+step(), nil)
+		},
+		func() {
+			at := rmAttacker(h, r, reader, blobber)
+			submit(blobber, a.ID, "foreign-key-victim-sig", at.PubKey, reader, last()+step(), nil)
+		},
+		func() {
+			at := rmAttacker(h, r, reader, blobber)
+			submit(blobber, a.ID, "foreign-key-same-counter", at.PubKey, at, last(), nil)
+		},
+		func() {
+			at := rmAttacker(h, r, reader, blobber)
+			submit(blobber, a.ID, "wrong-signer", reader.PubKey, at, last()+step(), nil)
+		},
+		func() { submit(blobber, a.ID, "replay", reader.PubKey, reader, last(), a.RMRaw[key]) },
+		func() { submit(blobber, a.ID, "same-counter", reader.PubKey, reader, last(), nil) },
+		func() {
+			if l := last(); l > 1 {
+				submit(blobber, a.ID, "counter-backwards", reader.PubKey, reader, l-1-int64(r.Intn(int(l-1))), nil)
+			}
+		},
+		func() {
+			if firstRaw != nil && len(rmRaws(h)[a.ID+"|"+key]) > 1 {
+				submit(blobber, a.ID, "replay-older", reader.PubKey, reader, 1, firstRaw)
+			}
+		},
+		func() { // another blobber: one of the allocation (own counter, full charge) or one outside of it
+			var in, out string
+			for _, p := range st.live(st.Blobbers) {
+				if p.W.ID == blobber {
+					continue
+				}
+				if v.ba(p.W.ID) != nil {
+					in = p.W.ID
+				} else {
+					out = p.W.ID
+				}
+			}
+			if in != "" {
+				o := submit(in, a.ID, "", reader.PubKey, reader, a.RC[in+"|"+reader.ID]+step(), nil)
+				if o != nil && o.Outcome == "success" {
+					at := rmAttacker(h, r, reader, in)
+					submit(in, a.ID, "foreign-key-foreign-sig", at.PubKey, at, a.RC[in+"|"+reader.ID]+step(), nil)
+				}
+			}
+			if out != "" {
+				submit(out, a.ID, "blobber-not-in-alloc", reader.PubKey, reader, step(), nil)
+			}
+		},
+		func() { // the same reader and blobber, another allocation
+			for _, b := range rmShuffledAllocs(r, st.open()) {
+				if b != a {
+					submit(blobber, b.ID, "other-alloc", reader.PubKey, reader, b.RC[key]+step(), nil)
+					return
+				}
+			}
+			submit(blobber, stHash("no-such-allocation"), "unknown-alloc", reader.PubKey, reader, step(), nil)
+		},
+	}
+	r.Shuffle(len(hostile), func(i, j int) { hostile[i], hostile[j] = hostile[j], hostile[i] })
+	for i, f := range hostile {
+		f()
+		if i%3 == 2 {
+			genuine() // the charge of the next genuine marker is exact only if nothing in between moved the counter
+		}
+	}
+	genuine()
+	h.EndBlock()
+}
+
+// rmSignedBy is the monitor's own signature check: does sig over hash verify under the key of the wallet the harness created for
+// clientID (byClient)? Is pub that wallet's public key (keyOfClient)? Otherwise, the id of the harness wallet whose public key is pub
+// if the signature verifies under it (signedBy, "" if none).
+func rmSignedBy(h *Hist, clientID, pub, sig, hash string) (byClient, keyOfClient bool, signedBy string) {
+	verify := func(w *world.Wallet) (ok bool) {
+		defer func() {
+			if recover() != nil {
+				ok = false
+			}
+		}()
+		v, err := w.Scheme.Verify(sig, hash)
+		return v && err == nil
+	}
+	if w := h.W.Wallets[clientID]; w != nil {
+		keyOfClient = pub == w.PubKey
+		if verify(w) {
+			return true, keyOfClient, clientID
+		}
+	}
+	for id, w := range h.W.Wallets {
+		if w.PubKey == pub && id != clientID && verify(w) {
+			return false, keyOfClient, id
+		}
+	}
+	return false, keyOfClient, ""
 }
